@@ -332,7 +332,7 @@ def hdl21_naming_encoder(obj: Any) -> Any:
     if isinstance(obj, (set, frozenset)):
         # Sets iterate in hash order, which differs from one Python process to the next.
         # Name them by the sorted encodings of their elements.
-        return sorted(json.dumps(x, default=hdl21_naming_encoder, sort_keys=True) for x in obj)
+        return sorted(json.dumps(_tagged(x, None), default=hdl21_naming_encoder, sort_keys=True) for x in obj)
 
     # Dataclasses also require custom handling, as the default encoder deep-copies them,
     # often invoking methods not supported on several Hdl21 types.
@@ -365,6 +365,9 @@ def _tagged(value: Any, param: Optional[Param]) -> Any:
     or an `Enum` member and its plain value. Name these by their class too."""
     import enum
 
+    if isinstance(value, (list, tuple)):
+        # The members of a sequence have no declared type of their own
+        return [_tagged(v, None) for v in value]
     if not (isparamclass(value) or isinstance(value, enum.Enum)):
         return value
     if param is not None and param.dtype in (type(value), Optional[type(value)]):
